@@ -973,14 +973,50 @@ Proof.
   - apply N.eqb_neq in Z. destruct Hside as [Hz|Hle]; [congruence|]. lia.
 Qed.
 
+(* ApplySnapshot keeps the engine good, but it is NOT MemoryStorage.ApplySnapshot on the view: MemoryStorage drops every
+   entry, RocksStorage writes the dummy at the snapshot index, deletes the keys below it and KEEPS the keys above it *)
+Lemma good_apply_snapshot : forall s si st s', rs_good s -> rs_head s <= si + 1 -> rs_apply_snapshot s si st = Ok s' ->
+  rs_good s' /\ rs_off s' = si /\ rs_snapi s' = si /\ rs_snapt s' = st /\
+  rs_db s' = mkE st si 0 0 :: filter (fun e => si + 1 <=? eindex e) (rs_db s) /\
+  ms_apply_snapshot (rs_view s) si st = Ok (mkMS si st [mkE st si 0 0]).
+Proof.
+  intros s si st s' Hg Hh H. pose proof (rs_apply_snapshot_inv s si st s' (proj1 Hg) H) as Hinv'.
+  pose proof Hg as ((Hincr & _) & Hc & H1 & H2). unfold rs_apply_snapshot in H.
+  destruct (si <=? rs_snapi s) eqn:E; [discriminate|]. apply N.leb_gt in E. injection H as <-.
+  set (d := mkE st si 0 0) in *.
+  destruct (db_put_spec d (rs_db s) Hincr) as (P1 & P2 & P3 & P4).
+  assert (Hdb : db_del_below si (db_put d (rs_db s)) = d :: filter (fun e => si + 1 <=? eindex e) (rs_db s)).
+  { apply incr_ext.
+    - apply incr_filter. exact P1.
+    - cbn [incr]. split; [|apply incr_filter; exact Hincr]. intros x Hx. apply filter_In in Hx. destruct Hx as [_ Hx].
+      apply N.leb_le in Hx. cbn. lia.
+    - intros x. unfold db_del_below. rewrite filter_In. split.
+      + intros [Hx Hi]. apply N.leb_le in Hi. destruct (P3 x Hx) as [->|[Hx' Hne]]; [left; reflexivity|].
+        right. apply filter_In. split; [exact Hx'|]. apply N.leb_le. cbn in Hne. lia.
+      + intros [<-|Hx]; [split; [exact P2|apply N.leb_le; cbn; lia]|].
+        apply filter_In in Hx. destruct Hx as [Hx Hi]. apply N.leb_le in Hi. split; [|apply N.leb_le; lia].
+        apply P4; [exact Hx|]. cbn. lia. }
+  assert (Hct : contig (si + 1) (filter (fun e => si + 1 <=? eindex e) (rs_db s))).
+  { rewrite (contig_filter_ge _ _ (si + 1) Hc). pose proof (contig_skipn _ _ (N.to_nat (si + 1 - rs_head s)) Hc) as X.
+    replace (rs_head s + N.of_nat (N.to_nat (si + 1 - rs_head s))) with (si + 1) in X by lia. exact X. }
+  assert (Hoff : rs_off (mkRS si st (db_del_below si (db_put d (rs_db s))) 0 0) = si).
+  { unfold rs_off. cbn [rs_snapi]. replace (si =? 0) with false by (symmetry; apply N.eqb_neq; lia). reflexivity. }
+  split; [|split; [exact Hoff|split; [reflexivity|split; [reflexivity|split; [exact Hdb|]]]]].
+  - split; [exact Hinv'|]. rewrite Hoff. unfold rs_lastk, rs_head. cbn [rs_db]. rewrite Hdb.
+    replace (eindex d) with si by reflexivity. split; [split; [reflexivity|exact Hct]|]. unfold nlen. simpl. lia.
+  - unfold ms_apply_snapshot. unfold rs_view at 1. cbn [ms_snapi].
+    replace (si <=? rs_snapi s) with false by (symmetry; apply N.leb_gt; lia). reflexivity.
+Qed.
+
 (* every state reached from a fresh engine by queries, restarts, contiguous gap-free appends, snapshots of present
-   indexes and compaction not beyond the snapshot is good *)
+   indexes, ApplySnapshot at or after the first key - 1, and compaction not beyond the snapshot is good *)
 Inductive rop_good : rstore -> rop -> Prop :=
 | GFirst : forall s, rop_good s RFirst
 | GLast : forall s, rop_good s RLast
 | GTerm : forall s i, rop_good s (RTerm i)
 | GEntries : forall s lo hi max, lo < hi -> rop_good s (REntries lo hi max)
 | GCreate : forall s i, rop_good s (RCreateSnap i)
+| GApplySnap : forall s si st, rs_head s <= si + 1 -> rop_good s (RApplySnap si st)
 | GCompact : forall s ci, (rs_snapi s = 0 \/ ci <= rs_snapi s) -> rop_good s (RCompact ci)
 | GAppend : forall s e0 r, contig (eindex e0) (e0 :: r) -> eindex e0 <= rs_lastk s + 1 -> rop_good s (RAppend (e0 :: r))
 | GAppendNil : forall s, rop_good s (RAppend [])
@@ -999,6 +1035,7 @@ Proof.
     + destruct (C3 G L2) as (es & s' & -> & _ & Hg' & _). exact Hg'.
     + destruct (C2 G G2) as [-> _]. exact Hg.
   - destruct (rs_create_snapshot s i) as [s'| |] eqn:E; [|exact Hg|exact Hg]. apply (good_create_snapshot s i s' Hg E).
+  - destruct (rs_apply_snapshot s si st) as [s'| |] eqn:E; [|exact Hg|exact Hg]. apply (good_apply_snapshot s si st s' Hg H E).
   - destruct (rs_compact s ci) as [s'| |] eqn:E; [|exact Hg|exact Hg]. apply (good_compact s ci s' Hg H E).
   - destruct (good_append s e0 r Hg H H0) as (s' & m' & -> & _ & Hg' & _). exact Hg'.
   - exact Hg.
